@@ -37,10 +37,29 @@ type Elem struct {
 	Cls   []string `json:"cls"`
 	ID    string   `json:"id"`
 }
+type Sel struct {
+	Typ string `json:"typ"`
+	Cls string `json:"cls"`
+	ID  string `json:"id"`
+}
+
+func (x Sel) String() string {
+	sel := x.Typ
+	if x.Cls != "" {
+		sel += "." + x.Cls
+	}
+	if x.ID != "" {
+		sel += "#" + x.ID
+	}
+	return sel
+}
+
+// Rule: a selector list of one or two members (the first is Typ/Cls/ID, the optional second Alt[0]) and its declarations.
 type Rule struct {
 	Typ string `json:"typ"`
 	Cls string `json:"cls"`
 	ID  string `json:"id"`
+	Alt []Sel  `json:"alt"`
 	D   []Decl `json:"d"`
 }
 type Doc struct {
@@ -90,9 +109,14 @@ type Event struct {
 	CD    Cands    `json:"cd"`
 	loose bool     // the pairing with an observed paint is uncertain (number of paints differs): no candidate check
 }
+type RPiece struct {
+	K string   `json:"k"` // L line | B Bezier with control polygon H (3 points: quadratic, 4: cubic)
+	H [][2]int `json:"h"`
+}
 type RSub struct {
 	V      [][2]int `json:"v"`
 	Closed bool     `json:"closed"`
+	Pc     []RPiece `json:"pc"`
 }
 type RDraw struct {
 	Subs   []RSub `json:"subs"`
@@ -361,12 +385,13 @@ func Serialise(d *Doc) string {
 				b.WriteString("<style>")
 				spaced := (ser[3]/3)%2 == 1
 				for _, r := range d.Rules {
-					sel := r.Typ
-					if r.Cls != "" {
-						sel += "." + r.Cls
-					}
-					if r.ID != "" {
-						sel += "#" + r.ID
+					sel := Sel{r.Typ, r.Cls, r.ID}.String()
+					for _, a := range r.Alt {
+						if spaced {
+							sel += ", " + a.String()
+						} else {
+							sel += "," + a.String()
+						}
 					}
 					if spaced {
 						b.WriteString("\n " + sel + " { " + serDecls(r.D, true) + " }")
